@@ -13,7 +13,8 @@ FixedB == [r \in AllRates |-> [na |-> FALSE, lbw |-> "0.35", ubw |-> "0.65", lbd
 FixedBr == [r \in AllRates |-> [lbw |-> <<"0.0", "1.0">>, ubw |-> <<"0.0", "1.0">>, lbd |-> <<"0.0", "1.0">>, ubd |-> <<"0.0", "1.0">>]]
 Init == (\E c \in Configs : InitWith(c)) /\ lastCell = <<0, 0>>
 Update == \E yt \in {0, 1}, yp \in {0, 1} : Step(yt, yp, FixedB, FixedBr) /\ lastCell' = <<yt, yp>>
-Next == Update
+Rst == st # "drift" /\ total > 0 /\ UserReset /\ lastCell' = <<-1, -1>>      \* (lastCell <<-1, -1>> marks a step that was not an update)
+Next == Update \/ Rst
 Spec == Init /\ [][Next]_vars
 Bound == TLCGet("level") <= Depth
 LC == INSTANCE Lifecycle WITH ltab <- [restart |-> 1, incs |-> {1}, hasrecs |-> TRUE, epochbound |-> TRUE, refrestart |-> FALSE],
@@ -24,13 +25,13 @@ NoEarly == LC!NoEarly
 (* the confusion matrix of the epoch: one pseudo-count per cell plus one count per sample *)
 CellSum == conf.tn + conf.fn + conf.fp + conf.tp = 4 + since
 (* each sample moves exactly its own cell *)
-CellMap == [][ LET c0 == IF st = "drift" THEN Ones ELSE conf IN
+CellMap == [][ lastCell' # <<-1, -1>> => LET c0 == IF st = "drift" THEN Ones ELSE conf IN
                /\ conf'.tp = c0.tp + (IF lastCell' = <<1, 1>> THEN 1 ELSE 0)
                /\ conf'.tn = c0.tn + (IF lastCell' = <<0, 0>> THEN 1 ELSE 0)
                /\ conf'.fn = c0.fn + (IF lastCell' = <<1, 0>> THEN 1 ELSE 0)
                /\ conf'.fp = c0.fp + (IF lastCell' = <<0, 1>> THEN 1 ELSE 0) ]_vars
 (* tpr moves only on true positives / false negatives, etc.; an untracked rate's statistic never moves *)
-ChangedOnly == [][ \A r \in AllRates :
+ChangedOnly == [][ lastCell' # <<-1, -1>> => \A r \in AllRates :
                      LET R0 == IF st = "drift" THEN Half ELSE R IN
                      R'[r] # R0[r] => /\ r \in lcfg.tracked
                                       /\ (r = "tpr" => lastCell'[1] = 1) /\ (r = "tnr" => lastCell'[1] = 0)
